@@ -46,6 +46,9 @@ checks = [
  chk("C10","Fault enumeration on a simulated disk between serialize_raw and deserialize: for every sampled buffer every prefix (torn write), every single-bit flip, every stale-tail cut against an older image, the lost write and 20 marker substitutions at every msgpack value offset are enumerated completely; zeroed/duplicated ranges, multi-byte corruption and free-form strings under every header variant are sampled. Each case is loaded into a non-empty engine under catch_unwind and allocator accounting: Err must leave bytes, tags and answers unchanged; Ok must be followed by total queries, a tag switch and re-serialization; allocation is bounded; worker-process death is a violation.",
      "simulated-disk fault enumeration (torn/short/stale/bit-flip/marker) with allocator accounting and process isolation","DESIGN.md section 4 (C10)",
      "Trusted base: the fault generator and msgpack walker, the allocator accounting, catch_unwind. Buffers are sampled (16 quick / 400 thorough); per buffer the listed single-fault kinds are complete.", level="fault_enumeration"),
+ chk("C19","Seeded schedule search with shuttle over the real thread-safe build (sources of /repo with std::sync/std::thread redirected to shuttle in a generated copy): 2-4 threads x 1-6 mixed queries on one shared Arc<Engine>/Arc<Blocker> with regex-heavy rules, aggressive discard policy, a clock advancing on every read and scheduling points inside RegexManager; every concurrent answer must equal a sequentially queried twin, with no deadlock, poison, panic or two threads inside the regex manager. Plus a seed-for-seed differential of 1600 (quick) C06 histories between the default and the thread-safe build, and a compile check of the thread-safe configuration (static Send+Sync assertion).",
+     "deterministic simulation: shuttle random/PCT schedule search with persisted replayable schedules + configuration differential","DESIGN.md section 4 (C19)",
+     "Trusted base: shuttle 0.9.3, the textual std::sync->shuttle redirection (mkshadow.py), the yield-point hooks. Shuttle preempts only at synchronisation operations and hook points; unsynchronised data races are outside its view."),
 ]
 m = {
  "version": 1,
@@ -59,10 +62,10 @@ m = {
  },
  "engines": [
    {"name":"adsim","path":"/verif/sim","serves_properties":[c["property_id"] for c in checks],
-    "kind_free_text":"seeded deterministic simulator in Rust: one run = fresh thread with simulated clock (hook), seeded allocator for the rule size class, interposed getrandom for hash seeds, in-memory disk; 16 worker processes; minimiser and replay"}
+    "kind_free_text":"(C19 additionally uses /verif/sim-shuttle: the same harness sources built against a generated shuttle-redirected copy of /repo/src) seeded deterministic simulator in Rust: one run = fresh thread with simulated clock (hook), seeded allocator for the rule size class, interposed getrandom for hash seeds, in-memory disk; 16 worker processes; minimiser and replay"}
  ],
  "checks": checks,
- "notes": "fix: commits in /repo: 3abe90d e53bf23 ea52f20 3a7bef6 700abd6 f98e7f0 42030f9 fc19ce0 d3ab54c (see known_findings.json). Known findings are replayed from /verif/witnesses and reported as KNOWN-FINDING lines.",
+ "notes": "fix: commits in /repo: 3abe90d e53bf23 ea52f20 3a7bef6 700abd6 f98e7f0 42030f9 fc19ce0 d3ab54c fff4a50 e7354e5 (see known_findings.json). Known findings are replayed from /verif/witnesses and reported as KNOWN-FINDING lines.",
  "not_applicable": [{"property_id":k,"reason":v} for k,v in NA.items()],
 }
 json.dump(m, open('/verif/MANIFEST.json','w'), indent=1)
